@@ -46,11 +46,25 @@ CONTEXTS = {
     "definition": "; aa : %s",
     "link-caption": "[[Target|aa %s bb]]",
     "html-bold": "<b>aa %s</b>",
+    # the same region reaches the tree more than once / another region of the same kind is handled first
+    "template-arg-used-twice": "{{twice|aa %s bb}}",
+    "template-named-arg-used-thrice": "{{thrice|x=%s}}",
+    "after-ref-holding-the-same-kind": "<ref>rr %o</ref> zz %s",
+    "inside-ref-after-the-same-kind": "%o zz <ref>rr %s</ref>",
+    "tag-function-ref": "{{#tag:ref|aa %s bb}}",
+    "twice-in-one-paragraph": "%s and %o and %s",
 }
+OTHER = "qOtherq"
+TIMES = {"template-arg-used-twice": 2, "template-named-arg-used-thrice": 3}      # how often the context shows its region
 
 
 def closes_itself(tag, body):
     return re.search(r"</%s\s*>" % tag, body, re.I) is not None or "\x7f" in body
+
+
+def closes_context(ctxname, body):
+    """a context that is itself an opaque region (<ref>) ends at the first closing tag, also one inside the body (as in MediaWiki)."""
+    return "ref" in ctxname and re.search(r"</ref", body, re.I) is not None
 
 
 SPELL = {"<": ["&lt;", "&#60;", "&#x3c;"], ">": ["&gt;", "&#62;", "&#x3E;"], "&": ["&amp;", "&#38;"], "'": ["&#39;", "&#x27;"],
@@ -87,7 +101,7 @@ def spelled_pairs():
 def _db():
     from .templ_common import wiki_db
 
-    db = wiki_db({"echo": "{{{1}}}"})
+    db = wiki_db({"echo": "{{{1}}}", "twice": "{{{1}}} / {{{1}}}", "thrice": "{{{x}}}{{{x|}}} {{echo|{{{x}}}}}"})
     db.get_url = lambda *a, **k: None
     return db
 
@@ -136,8 +150,10 @@ def decode_entities(s):
 def check_case(tag, body, ctxname):
     """-> None | description of the violation."""
     ctx = CONTEXTS[ctxname]
+    if closes_context(ctxname, body):
+        return None
     vl = " lang=x" if tag in ("source", "syntaxhighlight") else ""
-    mk = lambda b: ctx.replace("%s", f"<{tag}{vl}>{b}</{tag}>")  # noqa: E731
+    mk = lambda b: ctx.replace("%s", f"<{tag}{vl}>{b}</{tag}>").replace("%o", f"<{tag}{vl}>{OTHER}</{tag}>")  # noqa: E731
     placeholder = "QZQ"
     try:
         s0, t0, p0 = parse(mk(placeholder))
@@ -148,7 +164,7 @@ def check_case(tag, body, ctxname):
         want = decode_entities(body)
     else:
         want = body
-    n = ctx.count("%s")
+    n = TIMES.get(ctxname, ctx.count("%s"))
     if tag in ("math", "timeline"):
         caps0 = [c for _, c in p0]
         caps1 = [c for _, c in p1]
